@@ -3,6 +3,8 @@ package main
 import (
 	"fmt"
 	"go/ast"
+	"os"
+	"path/filepath"
 	"regexp"
 	"regexp/syntax"
 	"strconv"
@@ -147,7 +149,18 @@ func reToLean(re *syntax.Regexp, top bool) (string, error) {
 
 const pinnedPseudoRE = `^v[0-9]+\.(0\.0-|\d+\.\d+-([^+]*\.)?0\.)\d{14}-[A-Za-z0-9]+(\+incompatible)?$`
 
+func pinnedDir() string {
+	root := os.Getenv("VERIF_ROOT")
+	if root == "" {
+		root = "/verif"
+	}
+	return filepath.Join(root, "harness", "pinned")
+}
+
 func genProxy(g *fact.Gen) {
+	// allHex itself, translated statement by statement (harness/internal/go2lean)
+	g.TranslateModule("ProxyGo", "goproxytest/allhex.go", []string{"allHex"}, "proxy",
+		[]string{"GIV.GoLib"}, "GIV.Go.Proxy", filepath.Join(pinnedDir(), "ProxyGo.lean"))
 	const rel = "goproxytest/proxy.go"
 	g.Emit("/-- Regular expressions over bytes (whole-string matching); `cls` = union of inclusive byte ranges. -/\ninductive Re where\n  | empty | eps\n  | cls (ranges : List (UInt8 × UInt8))\n  | cat (a b : Re) | alt (a b : Re) | star (a : Re)\n\n")
 
